@@ -466,10 +466,15 @@ def KnownLocalLive (decls : List Decl) (dummies : List String) (k : List Stmt) (
   o.locals.any fun x => !isParam decls x && liveAfter dummies k x
 
 /-- `outline-out-maybe-undefined` (standard conformance, invisible under by-reference argument passing): an INTENT(OUT)
-dummy is not assigned on every path through the region (scalar) or not assigned as a whole (array) and the actual argument is
-read after the call -/
+dummy may be read in the region before it is overwritten as a whole (an element assignment "defines" the array for the
+dataflow analysis and hides later reads), or it is not surely overwritten (only on some paths / only some elements) and the
+actual argument is read after the call -/
 def KnownOutMaybe (dummies : List String) (k : List Stmt) (o : Outlined) : Bool :=
-  o.outs.any fun x => !mustDef x o.unit.body && liveAfter dummies k x
+  o.outs.any fun x =>
+    match liveIn x o.unit.body with
+    | some true => true
+    | some false => false
+    | none => liveAfter dummies k x
 
 def classesOf (decls : List Decl) (dummies : List String) (k : List Stmt) (h : Hdr) (o : Outlined) : List String :=
   (if KnownCallInRegion o.unit.body then ["outline-call-in-region"] else []) ++
